@@ -34,15 +34,15 @@ type DepositFact struct {
 }
 
 type PayoutFact struct {
-	IDs      []uint64
-	Txs      []*BtcTx // original + RBF candidates
-	Fees     []uint64
-	Pid      uint64
-	HavePid  bool
-	Mined    int // index into Txs of the candidate that was mined, -1 if none
-	Height   uint64
-	Index    int
-	Done     bool
+	IDs     []uint64
+	Txs     []*BtcTx // original + RBF candidates
+	Fees    []uint64
+	Pid     uint64
+	HavePid bool
+	Mined   int // index into Txs of the candidate that was mined, -1 if none
+	Height  uint64
+	Index   int
+	Done    bool
 }
 
 type hashesArgs struct {
@@ -58,13 +58,13 @@ type mineArgs struct {
 }
 
 type newDepositArgs struct {
-	User     int    `json:"user"`
-	Value    uint64 `json:"value"`
-	Version  int    `json:"version"`
-	Coinbase bool   `json:"coinbase,omitempty"`
-	Node     int    `json:"node"`
-	KeyIdx   int    `json:"key_idx"` // -1: whatever the node hands out
-	Extra    int    `json:"extra_outputs,omitempty"`
+	User      int    `json:"user"`
+	Value     uint64 `json:"value"`
+	Version   int    `json:"version"`
+	Coinbase  bool   `json:"coinbase,omitempty"`
+	Node      int    `json:"node"`
+	KeyIdx    int    `json:"key_idx"` // -1: whatever the node hands out
+	Extra     int    `json:"extra_outputs,omitempty"`
 	ScriptMut string `json:"script_mut,omitempty"` // the user pays a near miss of the handed-out script
 }
 
@@ -448,10 +448,24 @@ func (w *World) mutateDeposits(msg *bitcointypes.MsgNewDeposits, facts []*Deposi
 		}
 	case "fake-header":
 		// a header the adversary made up whose merkle root is the txid itself (no path needed)
+		// (a two-leaf tree: position 1 with the made-up sibling as the whole path). Half the time
+		// the transaction itself is made up too (never mined), so that only the comparison of the
+		// header with the voted hash stands between the adversary and a credit.
+		txid := f0.Tx.Txid
+		if r.Chance(0.5) {
+			c := f0.Tx.Msg.Copy()
+			c.LockTime++
+			if int(d0.OutputIndex) < len(c.TxOut) {
+				c.TxOut[d0.OutputIndex].Value *= 3
+			}
+			ft := newBtcTx(c, "made up")
+			d0.NoWitnessTx, txid = ft.Raw, ft.Txid
+		}
+		sib := sha([]byte(fmt.Sprintf("fake-sibling-%d", a.Arg)))
 		hdr := append([]byte{}, blk.Header...)
-		copy(hdr[36:68], f0.Tx.Txid)
+		copy(hdr[36:68], dsha(append(append([]byte{}, sib...), txid...)))
 		msg.BlockHeaders[0].Raw = hdr
-		d0.IntermediateProof = nil
+		d0.IntermediateProof = sib
 		d0.TxIndex = 1
 	case "dup-in-batch":
 		c := *d0
@@ -727,7 +741,7 @@ func (w *World) stepReplay(a replayArgs, r *Rand) string {
 // generation of relayer-side steps
 
 var forgedVariants = []string{"below-threshold", "bits-beyond-voters", "padding-bits", "extra-signer", "missing-signer", "proposer-missing", "dup-signer", "outsider-key",
-	"other-chain", "other-epoch", "other-seq", "other-method", "other-payload", "odd-bitmap-len", "long-bitmap", "empty-bitmap", "claimed-seq", "claimed-epoch"}
+	"other-chain", "other-epoch", "other-seq", "other-method", "other-payload", "odd-bitmap-len", "long-bitmap", "empty-bitmap", "claimed-seq", "claimed-epoch", "consistent-other-epoch", "consistent-other-seq"}
 
 func (w *World) forgedVote(variant string, r *Rand) VoteOpt {
 	cv := w.chainView()
@@ -846,6 +860,18 @@ func (w *World) forgedVote(variant string, r *Rand) VoteOpt {
 		o.VoteSeqDelta = int64(1 + r.Intn(3))
 	case "claimed-epoch":
 		o.VoteEpochDelta = int64(1 + r.Intn(3))
+	case "consistent-other-epoch":
+		// a complete, internally consistent quorum vote, but of another epoch (signed for it and
+		// claiming it), at the current sequence
+		o.EpochDelta = int64(1 + r.Intn(2))
+		if r.Chance(0.5) && cv != nil && cv.Rel.Epoch > 0 {
+			o.EpochDelta = -1
+		}
+	case "consistent-other-seq":
+		o.SeqDelta = int64(1 + r.Intn(2))
+		if r.Chance(0.5) && cv != nil && cv.Seq > 0 {
+			o.SeqDelta = -1
+		}
 	case "other-method":
 		o.Method = pick(r, []string{"Bitcoin/NewPubkey", "Bitcoin/NewBlocks", "Bitcoin/ProcessWithdrawal", "Bitcoin/ReplaceWithdrawal", "Bitcoin/NewConsolidation", "Relayer/NewVoter"})
 	case "other-payload":
